@@ -62,7 +62,12 @@ var tailBytes = []byte{0x00, 0x01, 0x7f, 0x80, 0xff}
 
 // candidate heights tried through CheckSerializedHeight for one script
 func heightCandidates(script []byte) []int32 {
-	set := map[int32]bool{0: true, 1: true, 16: true, 17: true, 127: true, 128: true, 255: true, 256: true, 32767: true, 32768: true, 0x7fffffff: true}
+	set := map[int32]bool{0: true, 1: true, 16: true, 17: true, 128: true, 0x7fffffff: true}
+	if r.Thorough() {
+		for _, v := range []int32{127, 255, 256, 32767, 32768} {
+			set[v] = true
+		}
+	}
 	if h, ok := ref.CoinbaseHeight(script); ok {
 		set[int32(h)] = true
 		if h > 0 {
